@@ -44,6 +44,8 @@ def bounds(tier):
 def shards(tier):
     out = []
     for aid, at in universe.atoms(tier):
+        if aid in universe.XML_ONLY_ATOMS:
+            continue
         for pos in POSITIONS:
             if universe.program_for(at, pos) is None:
                 continue
